@@ -300,18 +300,28 @@ func (env *Env) eval(x Expr) (*Val, error) {
 		}
 		// side facts emitted while evaluating the body (typing facts of memory reads, facts of pure calls) may mention
 		// the bound variables: they hold for every value of them, so they are universally closed here
+		seenFact := map[string]bool{}
+		kept := e.out[:mark]
 		for i := mark; i < len(e.out); i++ {
 			ln := e.out[i]
-			if !strings.HasPrefix(ln, "(assert ") {
-				continue
-			}
-			for _, qv := range x.Vars {
-				if strings.Contains(ln, n.vars[qv.Name].L[0].T) {
-					e.out[i] = "(assert (forall (" + strings.Join(binders, " ") + ") " + ln[len("(assert "):len(ln)-1] + "))"
-					break
+			if strings.HasPrefix(ln, "(assert ") {
+				for _, qv := range x.Vars {
+					if strings.Contains(ln, n.vars[qv.Name].L[0].T) {
+						ln = "(assert (forall (" + strings.Join(binders, " ") + ") " + ln[len("(assert "):len(ln)-1] + "))"
+						break
+					}
+				}
+				// the same fact is produced once per occurrence of a sub-expression: keep one copy
+				if strings.HasPrefix(ln, "(assert (forall ") {
+					if seenFact[ln] {
+						continue
+					}
+					seenFact[ln] = true
 				}
 			}
+			kept = append(kept, ln)
 		}
+		e.out = kept
 		q := "exists"
 		if x.Forall {
 			q = "forall"
